@@ -239,3 +239,5 @@ func registerSM(property, kind string, mk func(backend string) (*sm.Session, err
 	smKinds[kind] = mk
 	replayers[kind] = smReplayer(property, mk)
 }
+
+func writeFile(path, content string) { os.WriteFile(path, []byte(content), 0o644) }
